@@ -34,32 +34,57 @@ type Barrier struct {
 	Edge  EdgeSpec
 }
 
+// atomHolds: does the branch condition c (already reduced by Truthy to atom a
+// with polarity pol) decide the atom matched by p?  Besides the direct match it
+// recognises boolean phis of short-circuit expressions: for x := a || b … the
+// false edge of x implies every non-constant operand false; for x := a && b …
+// the true edge implies every non-constant operand true.  Returns (matched,
+// succ index on which the atom has value want).
+func atomEdge(c *Expr, p Pat, want bool) (bool, int) {
+	a, pol := Truthy(c)
+	if a == nil {
+		return false, 0
+	}
+	succFor := func(condVal bool) int {
+		// successor taken when the (possibly negated) condition atom a has value condVal
+		if condVal == pol {
+			return 0
+		}
+		return 1
+	}
+	if p(a) {
+		return true, succFor(want)
+	}
+	if a.K == EPhi && len(a.Args) > 0 {
+		// phi false ⇒ operands that are not the constant true are false
+		// phi true  ⇒ operands that are not the constant false are true
+		all := true
+		n := 0
+		for _, op := range a.Args {
+			if IsConstBool(!want)(op) {
+				continue // this incoming edge cannot produce the value `want`
+			}
+			n++
+			oa, opol := Truthy(op)
+			if oa == nil || !opol || !p(oa) {
+				all = false
+			}
+		}
+		if all && n > 0 {
+			return true, succFor(want)
+		}
+	}
+	return false, 0
+}
+
 // OnTrue: the edge on which the atom matched by p is truthy (true / non-nil).
 func OnTrue(name string, p Pat) Barrier {
-	return Barrier{Name: name + "=true", Edge: func(c *Expr) (bool, int) {
-		a, pol := Truthy(c)
-		if a != nil && p(a) {
-			if pol {
-				return true, 0
-			}
-			return true, 1
-		}
-		return false, 0
-	}}
+	return Barrier{Name: name + "=true", Edge: func(c *Expr) (bool, int) { return atomEdge(c, p, true) }}
 }
 
 // OnFalse: the edge on which the atom matched by p is falsy (false / nil).
 func OnFalse(name string, p Pat) Barrier {
-	return Barrier{Name: name + "=false", Edge: func(c *Expr) (bool, int) {
-		a, pol := Truthy(c)
-		if a != nil && p(a) {
-			if pol {
-				return true, 1
-			}
-			return true, 0
-		}
-		return false, 0
-	}}
+	return Barrier{Name: name + "=false", Edge: func(c *Expr) (bool, int) { return atomEdge(c, p, false) }}
 }
 
 // OnCmp: the edge on which "lhs op rhs" holds (holds=true) or fails.
